@@ -164,6 +164,10 @@ func (builder *RuleBuilder) BuildRuleFromResource(name, version string, resource
 		return fmt.Errorf("KnowledgeBase %s:%s is not in this library", name, version)
 	}
 
+	// everything the listener puts into the working memory is journaled: when the resource is rejected,
+	// the knowledge base must be left exactly as it was.
+	knowledgeBase.WorkingMemory.BeginJournal()
+
 	listener := antlr2.NewGruleV3ParserListener(knowledgeBase, errReporter)
 
 	psr := parser.Newgrulev3Parser(stream)
@@ -175,11 +179,25 @@ func (builder *RuleBuilder) BuildRuleFromResource(name, version string, resource
 	antlr.ParseTreeWalkerDefault.Walk(listener, psr.Grl())
 
 	grl := listener.Grl
-	for _, ruleEntry := range grl.RuleEntries {
-		err := knowledgeBase.AddRuleEntry(ruleEntry)
-		if err != nil && err.Error() != "rule entry TestNoDesc already exist" {
-			BuilderLog.Tracef("warning while adding rule entry : %s. got %s, possibly already added by antlr listener", ruleEntry.RuleName, err.Error())
+	if errReporter.HasError() {
+		// A rejected resource must not damage what was loaded before: rules of this resource that were
+		// already added (possibly half-built, when the parser gave up in the middle of one) and the nodes
+		// registered in the working memory - which no rule entry may reach anymore and which would make
+		// every later NewKnowledgeBaseInstance fail - are taken out again.
+		if grl != nil {
+			for _, ruleEntry := range grl.RuleEntries {
+				knowledgeBase.DiscardRuleEntry(ruleEntry)
+			}
 		}
+		knowledgeBase.WorkingMemory.RollbackJournal()
+	} else {
+		for _, ruleEntry := range grl.RuleEntries {
+			err := knowledgeBase.AddRuleEntry(ruleEntry)
+			if err != nil && err.Error() != "rule entry TestNoDesc already exist" {
+				BuilderLog.Tracef("warning while adding rule entry : %s. got %s, possibly already added by antlr listener", ruleEntry.RuleName, err.Error())
+			}
+		}
+		knowledgeBase.WorkingMemory.CommitJournal()
 	}
 
 	knowledgeBase.WorkingMemory.IndexVariables()
